@@ -38,4 +38,41 @@ theorem exS_wf : WF exS := by
       decide
     · cases hi
 
+/-- a trackable `t0 ↦ object 7`, a user slot bound to it, and a copy of that slot connected to a signal -/
+def exT : St :=
+  { T := [(0, 7)],
+    S := [(0, { isVoid := true, slot := { rep := some { call := true, fn := some (.leaf 1 [7]) } } })],
+    G := [(0, { obj := 1, fl := .V, impl := some 3, trk := 2, lvl := 0 })],
+    impls := [(3, { cells := [{ id := 4, slot := { rep := some { call := true, fn := some (.leaf 1 [7]) } },
+                                 linked := true }] })],
+    C := [(0, some 4)], next := 8 }
+
+theorem exT_wf : WF exT := by
+  refine ⟨by decide, ?_, ?_, ?_, ?_⟩
+  · intro i im hi
+    simp only [exT, aget] at hi
+    split at hi
+    · cases hi; decide
+    · cases hi
+  · intro i j im jm c d hi hj _ _ _
+    simp only [exT, aget] at hi hj
+    split at hi
+    · split at hj
+      · rename_i a b; exact a.symm.trans b
+      · cases hj
+    · cases hi
+  · intro i im hi
+    simp only [exT, aget] at hi
+    split at hi
+    · rename_i a; rw [← a]; decide
+    · cases hi
+  · intro i im c hi hc
+    simp only [exT, aget] at hi
+    split at hi
+    · cases hi
+      simp at hc
+      subst hc
+      decide
+    · cases hi
+
 end Sigc.Inv
